@@ -88,7 +88,7 @@ def step(x, kind, P, k):
     raise ValueError(kind)
 
 
-READ_PROBES = ["read", "shape", "rowint", "elem", "rowslice", "colslice", "colrev", "ufunc", "rowsum", "iter", "tolist", "nonzero",
+READ_PROBES = ["ellipsis", "emptytuple", "read", "shape", "rowint", "elem", "rowslice", "colslice", "colrev", "ufunc", "rowsum", "iter", "tolist", "nonzero",
                "colint", "rowcolint", "maskidx", "colvals", "colsum", "colcounts", "padded", "padded_left", "unique", "cumsum", "concat", "where", "rslice", "any", "max"]
 WRITE_PROBES = ["set_row", "set_col", "set_all"]
 
@@ -102,6 +102,10 @@ def probe(d, kind, P):
             return ("precondition not met",)        # these need a non-empty row (C08/C09) / non-empty rows (C05 max)
     if kind == "read":
         return d
+    if kind == "ellipsis":
+        return d[...]
+    if kind == "emptytuple":
+        return d[()]
     if kind == "fcol":
         # a float column broadcast over the rows (an uninterpreted binary ufunc on the symbolic side, np.add at replay); float16 cells are exact IEEE
         if n == 0:
